@@ -20,9 +20,34 @@ NOT_APPLICABLE = {
 
 # claimed by DESIGN.md but whose check is not built yet (kept out of `checks` until it runs clean end to end)
 PENDING = {p: "in scope for deterministic simulation (DESIGN.md §5) but the check is not built yet in this revision; not claimed"
-           for p in ["C04", "C07", "C08", "C09", "C10", "C11", "C12", "C13", "C14", "C17", "C19"]}
+           for p in ["C07", "C09", "C10", "C11", "C12", "C13", "C14", "C17", "C19"]}
 
 PROPS = {
+    "C04": {
+        "level": "exploration",
+        "level_text": "seeded exploration of single-writer histories (successful and failing writes, write times, clock jumps) against 1-3 backpressured consumers whose pace is decided by the scheduler; every received stream compared event by event with the edit script derived from the reference model",
+        "level_note": TRUST + "; reference model of appendix A; change times are checked against the injected clock's [invoke, return] window of the write (exactly against WithWriteTime)",
+        "technique": "deterministic simulation (seeded scheduler, consumer pace = schedule) + expected edit script derived from the writer log through an executable reference model",
+        "rule": RULE_SCHED,
+        "scenarios": [
+            {"name": "script-value", "quick": 40000, "thorough": 3000000, "thorough_time": 200},
+            {"name": "script-coll", "quick": 40000, "thorough": 3000000, "thorough_time": 200},
+        ],
+        "require_hits": ["clock-jump", "bus.send.each", "collection.sub.listen", "value.sub.listen"],
+        "assumptions": ["the writer's operations never overlap each other or a Pull call (as in the statement)", "with an equivalence configured an event whose projected value equals the previous one may be suppressed or delivered"],
+    },
+    "C08": {
+        "level": "exploration",
+        "level_text": "seeded exploration of write histories x include predicates given as truth tables over (id, value or absent) x backpressure on/off x updates-only, consumer pace decided by the scheduler; fold(stream) == List(WithInclude) == model filter after every phase, and the exact per-event decision table under backpressure",
+        "level_note": TRUST + "; reference model of appendix A; where the predicate is true for absent values the exact event is not prescribed by the statement and only folding is checked",
+        "technique": "deterministic simulation (seeded scheduler, consumer pace = schedule) + folded-view and per-event decision-table oracles from an executable reference model",
+        "rule": RULE_SCHED,
+        "scenarios": [
+            {"name": "incl", "quick": 60000, "thorough": 6000000, "thorough_time": 300},
+        ],
+        "require_hits": ["collection.sub.listen", "bus.send.each", "collection.publish"],
+        "assumptions": ["subscriptions are opened between writes (single-writer histories as in the statement)"],
+    },
     "C01": {
         "level": "exploration",
         "level_text": "seeded generation of call sequences x option subsets x rng/clock faults for a single caller, compared call by call with an executable reference model; no schedule is involved, the simulator contributes the model, the faulted rng/clock seams and the live-subscriber observation of 'emits nothing'",
